@@ -453,7 +453,7 @@ def fault_suite(ctx, specs: list[list[dict]], work: Path, only: dict | None = No
 
     from harness.evsrc import Env
 
-    faults = [{"kind": k, "handler": h, "nth": n} for k in ("mark", "append", "cas") for h in ("CompleteTask", "CompleteStage", "SkipStage", "CompleteWorkflow")
+    faults = [{"kind": k, "handler": h, "nth": n} for k in ("mark", "append", "append-before", "cas") for h in ("CompleteTask", "CompleteStage", "SkipStage", "CompleteWorkflow")
               for n in (1, 2)]
     if only is not None:
         faults = [only]
@@ -490,6 +490,9 @@ def fault_suite(ctx, specs: list[list[dict]], work: Path, only: dict | None = No
                 return orig_mark(self, *a, **k)
 
             def append(self, event, connection=None):
+                if fault["kind"] == "append-before" and hit():
+                    # the append ITSELF fails with a non-transient error (nothing was inserted): the completion must not commit
+                    raise TypeError("injected failure of the event append itself")
                 out = orig_append(self, event, connection=connection)
                 if fault["kind"] == "append" and hit():
                     raise RuntimeError("injected failure after the event append")
